@@ -10,11 +10,20 @@ Import ListNotations.
 Local Open Scope string_scope.
 
 (* ---------- round trip on tokens ---------- *)
-Lemma roundtrip_guarded c p :
-  wf_prog p = true -> zsafe_prog p = true -> parse (tokens (d_prog c p)) = Some p.
-Proof. intros Hwf Hz. rewrite tokens_print by assumption. now apply roundtrip_tokens. Qed.
+(* The repaired printer: no guard. *)
+Lemma roundtrip c p : wf_prog p = true -> parse (tokens (d_prog c p)) = Some p.
+Proof. intros Hwf. rewrite tokens_print by assumption. now apply roundtrip_tokens. Qed.
 
-(* the statement without the guard is false: `if 1 == -0 { 1 } else { 2 }` *)
+(* ---------- idempotence ---------- *)
+Lemma idempotent c p :
+  wf_prog p = true -> option_map (d_prog c) (parse (tokens (d_prog c p))) = Some (d_prog c p).
+Proof. intros Hwf. now rewrite roundtrip. Qed.
+Lemma idempotent_tokens c p q :
+  wf_prog p = true -> parse (tokens (d_prog c p)) = Some q -> tokens (d_prog c q) = tokens (d_prog c p).
+Proof. intros Hwf E. rewrite roundtrip in E by assumption. now injection E as <-. Qed.
+
+(* ---------- regression: the printer before the repair (Printer.old_d_prog) ---------- *)
+(* `if 1 == -0 { 1 } else { 2 }` came back as the zero-comparison form *)
 Definition wit_cfg : pcfg := mkpcfg 80 true false 4.
 Definition wit_minus_zero : fprog :=
   mkfprog [FDDef (mkfdef "main" [] FI64 (FIfC FEq (FLit 1) (Some (FLit 0)) (FLit 1) (FLit 2) None))].
@@ -23,41 +32,36 @@ Definition wit_minus_zero_after : fprog :=
 Lemma wit_minus_zero_parses :     (* it is what the parser makes of the source text *)
   parse_text "def main(): i64 { if 1 == -0 { 1 } else { 2 } }" = Some wit_minus_zero.
 Proof. vm_compute. reflexivity. Qed.
-Lemma wit_minus_zero_changes :
+Lemma wit_minus_zero_changed :
   wf_prog wit_minus_zero = true /\
-  parse (tokens (d_prog wit_cfg wit_minus_zero)) = Some wit_minus_zero_after.
+  parse (tokens (old_d_prog wit_cfg wit_minus_zero)) = Some wit_minus_zero_after.
 Proof. split; vm_compute; reflexivity. Qed.
-Lemma roundtrip_refuted :
-  ~ (forall c p, wf_prog p = true -> parse (tokens (d_prog c p)) = Some p).
+Lemma old_roundtrip_refuted :
+  ~ (forall c p, wf_prog p = true -> parse (tokens (old_d_prog c p)) = Some p).
 Proof.
-  intros H. specialize (H wit_cfg wit_minus_zero (proj1 wit_minus_zero_changes)).
-  rewrite (proj2 wit_minus_zero_changes) in H. discriminate.
+  intros H. specialize (H wit_cfg wit_minus_zero (proj1 wit_minus_zero_changed)).
+  rewrite (proj2 wit_minus_zero_changed) in H. discriminate.
 Qed.
 
-(* worse: the printed text of a parseable program may not parse at all: `if 0 == x + -0 {1} else {2}` *)
+(* worse: the printed text of a parseable program did not parse at all: `if 0 == x + -0 {1} else {2}` *)
 Definition wit_unparsable : fprog :=
   mkfprog [FDDef (mkfdef "main" [mkfb "x" FPrd FI64] FI64
      (FIfC FEq (FOp (FVar "x" None None) FSum (FLit 0)) None (FLit 1) (FLit 2) None))].
 Lemma wit_unparsable_parses :
   parse_text "def main(x: i64): i64 { if 0 == x + -0 { 1 } else { 2 } }" = Some wit_unparsable.
 Proof. vm_compute. reflexivity. Qed.
-Lemma unparsable_output :
-  exists c p, wf_prog p = true /\ parse (tokens (d_prog c p)) = None.
+Lemma old_unparsable_output :
+  exists c p, wf_prog p = true /\ parse (tokens (old_d_prog c p)) = None.
 Proof. exists wit_cfg, wit_unparsable. split; vm_compute; reflexivity. Qed.
 
-(* ---------- idempotence ---------- *)
-Lemma idempotent_guarded c p :
-  wf_prog p = true -> zsafe_prog p = true ->
-  option_map (d_prog c) (parse (tokens (d_prog c p))) = Some (d_prog c p).
-Proof. intros Hwf Hz. now rewrite roundtrip_guarded. Qed.
-(* `if 0 > -0 {1} else {2}`: prints `if 0 < 0`, reparses as Greater, prints `if 0 > 0` *)
+(* `if 0 > -0 {1} else {2}`: printed `if 0 < 0`, reparsed as Greater, printed `if 0 > 0` *)
 Definition wit_flip : fprog :=
   mkfprog [FDDef (mkfdef "main" [] FI64 (FIfC FLt (FLit 0) None (FLit 1) (FLit 2) None))].
 Lemma wit_flip_parses : parse_text "def main(): i64 { if 0 > -0 { 1 } else { 2 } }" = Some wit_flip.
 Proof. vm_compute. reflexivity. Qed.
-Lemma idempotent_refuted :
-  ~ (forall c p q, wf_prog p = true -> parse (tokens (d_prog c p)) = Some q ->
-                   tokens (d_prog c q) = tokens (d_prog c p)).
+Lemma old_idempotent_refuted :
+  ~ (forall c p q, wf_prog p = true -> parse (tokens (old_d_prog c p)) = Some q ->
+                   tokens (old_d_prog c q) = tokens (old_d_prog c p)).
 Proof.
   intros H.
   specialize (H wit_cfg wit_flip
@@ -66,7 +70,39 @@ Proof.
   specialize (H E1). vm_compute in H. specialize (H eq_refl). discriminate.
 Qed.
 
-(* ---------- the guard and the closed form of the defect class agree ---------- *)
+(* a literal 0 as FIRST operand of a general comparison exists only behind a comment
+   (corpus/fun/c16_minus_zero_fst.sc); a second operand that starts with the literal 0 *)
+Definition wit_comment : fprog :=
+  mkfprog [FDDef (mkfdef "main" [mkfb "x" FPrd FI64] FI64
+     (FIfC FLt (FLit 0) (Some (FVar "x" None None)) (FLit 1) (FLit 2) None))].
+Lemma wit_comment_parses :
+  parse_text ("def main(x: i64): i64 { if 0 // zero" ++ String "010" "  < x { 1 } else { 2 } }") = Some wit_comment.
+Proof. vm_compute. reflexivity. Qed.
+Definition wit_snd_op : fprog :=
+  mkfprog [FDDef (mkfdef "main" [mkfb "x" FPrd FI64] FI64
+     (FIfC FEq (FVar "x" None None) (Some (FOp (FLit 0) FSum (FLit 1))) (FLit 1) (FLit 2) None))].
+Lemma wit_snd_op_parses :
+  parse_text "def main(x: i64): i64 { if x == -0 + 1 { 1 } else { 2 } }" = Some wit_snd_op.
+Proof. vm_compute. reflexivity. Qed.
+
+(* ... and what the REPAIRED printer (the model of the current code, compared with it byte for byte on
+   every run, these witnesses included) writes for them; each text parses back to its program *)
+Lemma witnesses_fixed :
+  render 80 (d_prog wit_cfg wit_minus_zero) = ("def main(): i64 {" ++ nl ++ "    if 1 == -0 { 1 } else { 2 }" ++ nl ++ "}")%string /\
+  render 80 (d_prog wit_cfg wit_unparsable) = ("def main(x: i64): i64 {" ++ nl ++ "    if 0 == x + 0 { 1 } else { 2 }" ++ nl ++ "}")%string /\
+  render 80 (d_prog wit_cfg wit_flip) = ("def main(): i64 {" ++ nl ++ "    if 0 > 0 { 1 } else { 2 }" ++ nl ++ "}")%string /\
+  render 80 (d_prog wit_cfg wit_comment)
+    = ("def main(x: i64): i64 {" ++ nl ++ "    if 0 //" ++ nl ++ "    < x {" ++ nl ++ "        1" ++ nl ++ "    } else {" ++ nl
+       ++ "        2" ++ nl ++ "    }" ++ nl ++ "}")%string /\
+  render 80 (d_prog wit_cfg wit_snd_op) = ("def main(x: i64): i64 {" ++ nl ++ "    if x == -0 + 1 { 1 } else { 2 }" ++ nl ++ "}")%string /\
+  parse_text (render 80 (d_prog wit_cfg wit_minus_zero)) = Some wit_minus_zero /\
+  parse_text (render 80 (d_prog wit_cfg wit_unparsable)) = Some wit_unparsable /\
+  parse_text (render 80 (d_prog wit_cfg wit_flip)) = Some wit_flip /\
+  parse_text (render 80 (d_prog wit_cfg wit_comment)) = Some wit_comment /\
+  parse_text (render 80 (d_prog wit_cfg wit_snd_op)) = Some wit_snd_op.
+Proof. repeat split; vm_compute; reflexivity. Qed.
+
+(* ---------- the former guard and the closed form of the repaired defect class agree ---------- *)
 Lemma omap_id {X} (f : X -> option X) l : (forall x, In x l -> f x = Some x) -> omap f l = Some l.
 Proof.
   induction l as [|x l IH]; intros H; [reflexivity|]. cbn [omap].
@@ -77,18 +113,18 @@ Proof.
   induction l as [|x l IH]; intros H; [reflexivity|]. cbn [omap_t].
   rewrite H by (now left). cbn [obind]. fold (omap_t f l). rewrite IH by (intros; apply H; now right). reflexivity.
 Qed.
-Lemma zsafe_renorm_t : forall m t, tsz t <= m -> zsafe t = true -> renorm_t t = Some t.
+Lemma zsafe_renorm_t : forall m t, tsz t <= m -> zsafe t = true -> old_renorm_t t = Some t.
 Proof.
   induction m as [|m IH]; intros t Hm Hz. { pose proof (tsz_pos t). lia. }
   assert (IHargs : forall args, list_sum (map tsz args) <= m -> forallb zsafe args = true ->
-                               omap_t renorm_t args = Some args).
+                               omap_t old_renorm_t args = Some args).
   { intros args Hs Hzs. apply omap_t_id. intros a Hin. rewrite forallb_forall in Hzs.
     apply IH; [|now apply Hzs]. pose proof (in_list_sum tsz a args Hin). lia. }
   assert (IHcls : forall cls, list_sum (map csz cls) <= m -> forallb zsafe_clause cls = true ->
      (fix go (l : list fclause) : option (list fclause) :=
         match l with
         | [] => Some []
-        | FClause p x ns g body :: r => do b' <- renorm_t body; do r' <- go r; Some (FClause p x ns g b' :: r')
+        | FClause p x ns g body :: r => do b' <- old_renorm_t body; do r' <- go r; Some (FClause p x ns g b' :: r')
         end) cls = Some cls).
   { induction cls as [|[p x ns g body] cls IHc]; intros Hs Hzs; [reflexivity|].
     cbn [forallb zsafe_clause] in Hzs. apply andb_prop in Hzs. destruct Hzs as [Hb Hr].
@@ -97,10 +133,10 @@ Proof.
   destruct t as [v ty chi | z | a o b | s a b th el ty | nl a next ty | v vty bound body ty | f args ret
                  | x args ty | scrut x targs args ty | scrut targs cls ty | cls ty | l u ty | l u ty | a ty | u];
     cbn [zsafe] in Hz; try reflexivity.
-  - apply andb_prop in Hz. destruct Hz as [Ha Hb]. rewrite tsz_op in Hm. cbn [renorm_t].
+  - apply andb_prop in Hz. destruct Hz as [Ha Hb]. rewrite tsz_op in Hm. cbn [old_renorm_t].
     rewrite !IH by (auto; lia). reflexivity.
   - rewrite !andb_true_iff in Hz. destruct Hz as ((((Hza & Hea) & Hzb) & Hzth) & Hzel).
-    apply negb_true_iff in Hea. rewrite tsz_if in Hm. cbn [renorm_t].
+    apply negb_true_iff in Hea. rewrite tsz_if in Hm. cbn [old_renorm_t].
     rewrite (IH a), (IH th), (IH el) by (auto; lia). cbn [obind].
     assert (is_lit0 a = false) as Hl by (destruct a as [| [] | | | | | | | | | | | | |]; try reflexivity; discriminate).
     rewrite Hl, Hea. destruct b as [b|]; [|reflexivity].
@@ -108,28 +144,28 @@ Proof.
     rewrite (IH b) by (auto; lia). cbn [obind].
     assert (is_lit0 b = false) as Hlb by (destruct b as [| [] | | | | | | | | | | | | |]; try reflexivity; discriminate).
     rewrite Hlb, Hsb. reflexivity.
-  - apply andb_prop in Hz. destruct Hz as [Ha Hb]. rewrite tsz_print in Hm. cbn [renorm_t].
+  - apply andb_prop in Hz. destruct Hz as [Ha Hb]. rewrite tsz_print in Hm. cbn [old_renorm_t].
     rewrite !IH by (auto; lia). reflexivity.
-  - apply andb_prop in Hz. destruct Hz as [Ha Hb]. rewrite tsz_let in Hm. cbn [renorm_t].
+  - apply andb_prop in Hz. destruct Hz as [Ha Hb]. rewrite tsz_let in Hm. cbn [old_renorm_t].
     rewrite !IH by (auto; lia). reflexivity.
-  - rewrite tsz_call in Hm. cbn [renorm_t]. rewrite IHargs by (auto; lia). reflexivity.
-  - rewrite tsz_ctor in Hm. cbn [renorm_t]. rewrite IHargs by (auto; lia). reflexivity.
-  - apply andb_prop in Hz. destruct Hz as [Ha Hb]. rewrite tsz_dtor in Hm. cbn [renorm_t].
+  - rewrite tsz_call in Hm. cbn [old_renorm_t]. rewrite IHargs by (auto; lia). reflexivity.
+  - rewrite tsz_ctor in Hm. cbn [old_renorm_t]. rewrite IHargs by (auto; lia). reflexivity.
+  - apply andb_prop in Hz. destruct Hz as [Ha Hb]. rewrite tsz_dtor in Hm. cbn [old_renorm_t].
     rewrite IH by (auto; lia). cbn [obind]. rewrite IHargs by (auto; lia). reflexivity.
-  - apply andb_prop in Hz. destruct Hz as [Ha Hb]. rewrite tsz_case in Hm. cbn [renorm_t].
+  - apply andb_prop in Hz. destruct Hz as [Ha Hb]. rewrite tsz_case in Hm. cbn [old_renorm_t].
     rewrite IH by (auto; lia). cbn [obind]. rewrite IHcls by (auto; lia). reflexivity.
-  - rewrite tsz_new in Hm. cbn [renorm_t]. rewrite IHcls by (auto; lia). reflexivity.
-  - rewrite tsz_label in Hm. cbn [renorm_t]. rewrite IH by (auto; lia). reflexivity.
-  - rewrite tsz_goto in Hm. cbn [renorm_t]. rewrite IH by (auto; lia). reflexivity.
-  - rewrite tsz_exit in Hm. cbn [renorm_t]. rewrite IH by (auto; lia). reflexivity.
-  - rewrite tsz_paren in Hm. cbn [renorm_t]. rewrite IH by (auto; lia). reflexivity.
+  - rewrite tsz_new in Hm. cbn [old_renorm_t]. rewrite IHcls by (auto; lia). reflexivity.
+  - rewrite tsz_label in Hm. cbn [old_renorm_t]. rewrite IH by (auto; lia). reflexivity.
+  - rewrite tsz_goto in Hm. cbn [old_renorm_t]. rewrite IH by (auto; lia). reflexivity.
+  - rewrite tsz_exit in Hm. cbn [old_renorm_t]. rewrite IH by (auto; lia). reflexivity.
+  - rewrite tsz_paren in Hm. cbn [old_renorm_t]. rewrite IH by (auto; lia). reflexivity.
 Qed.
-Lemma zsafe_renorm p : zsafe_prog p = true -> renorm p = Some p.
+Lemma zsafe_renorm p : zsafe_prog p = true -> old_renorm p = Some p.
 Proof.
-  intros Hz. destruct p as [ds]. unfold zsafe_prog, renorm in *. cbn [fpdecls] in *.
+  intros Hz. destruct p as [ds]. unfold zsafe_prog, old_renorm in *. cbn [fpdecls] in *.
   rewrite forallb_forall in Hz. rewrite omap_id; [reflexivity|].
   intros d Hd. specialize (Hz d Hd). destruct d as [d|d|d]; try reflexivity.
-  unfold renorm_decl. cbn [zsafe_decl] in Hz. rewrite (zsafe_renorm_t (tsz (fdbody d))) by auto.
+  unfold old_renorm_decl. cbn [zsafe_decl] in Hz. rewrite (zsafe_renorm_t (tsz (fdbody d))) by auto.
   destruct d; reflexivity.
 Qed.
 
@@ -142,25 +178,85 @@ Proof. intros H. split; [now apply safe_print | now apply words_ok_print]. Qed.
 Lemma layout_independent c p s :
   wf_prog p = true -> renders (d_prog c p) s -> lex_string s = Some (tokens (d_prog c p)).
 Proof. intros Hwf Hr. destruct (print_is_safe c p Hwf). now apply render_any_layout_tokens. Qed.
-(* and, outside the defect class, parses back to p *)
-Lemma roundtrip_text_guarded c p s :
-  wf_prog p = true -> zsafe_prog p = true -> renders (d_prog c p) s -> parse_text s = Some p.
+(* and parses back to p *)
+Lemma roundtrip_text c p s :
+  wf_prog p = true -> renders (d_prog c p) s -> parse_text s = Some p.
 Proof.
-  intros Hwf Hz Hr. unfold parse_text. rewrite (layout_independent c p s Hwf Hr). cbn [obind].
-  now apply roundtrip_guarded.
+  intros Hwf Hr. unfold parse_text. rewrite (layout_independent c p s Hwf Hr). cbn [obind].
+  now apply roundtrip.
 Qed.
 (* formatting again (any layout, any configuration c2) gives the document of p again *)
-Lemma idempotent_text_guarded c c2 p s :
-  wf_prog p = true -> zsafe_prog p = true -> renders (d_prog c p) s ->
+Lemma idempotent_text c c2 p s :
+  wf_prog p = true -> renders (d_prog c p) s ->
   option_map (d_prog c2) (parse_text s) = Some (d_prog c2 p).
-Proof. intros Hwf Hz Hr. now rewrite (roundtrip_text_guarded c p s). Qed.
+Proof. intros Hwf Hr. now rewrite (roundtrip_text c p s). Qed.
 
 (* ---------- the layout algorithm of the `pretty` crate (Model/Pretty.v) is one of these layouts ---------- *)
-Lemma roundtrip_pretty_guarded c p :
-  wf_prog p = true -> zsafe_prog p = true -> parse_text (render (pwidth c) (d_prog c p)) = Some p.
-Proof. intros Hwf Hz. apply (roundtrip_text_guarded c); auto. apply render_renders. Qed.
-Lemma idempotent_pretty_guarded c p :
-  wf_prog p = true -> zsafe_prog p = true ->
+Lemma roundtrip_pretty c p :
+  wf_prog p = true -> parse_text (render (pwidth c) (d_prog c p)) = Some p.
+Proof. intros Hwf. apply (roundtrip_text c); auto. apply render_renders. Qed.
+Lemma idempotent_pretty c p :
+  wf_prog p = true ->
   option_map (fun q => render (pwidth c) (d_prog c q)) (parse_text (render (pwidth c) (d_prog c p)))
   = Some (render (pwidth c) (d_prog c p)).
-Proof. intros Hwf Hz. now rewrite roundtrip_pretty_guarded. Qed.
+Proof. intros Hwf. now rewrite roundtrip_pretty. Qed.
+
+(* ---------- the repair is conservative ---------- *)
+(* Outside the repaired class (zsafe: no `if` has a literal 0 next to its operator) the repaired
+   printer builds the very same document as the old one - hence the same text at every width. *)
+Lemma same_doc_t c : forall m t, tsz t <= m -> zsafe t = true -> d_term c t = old_d_term c t.
+Proof.
+  induction m as [|m IH]; intros t Hm Hz. { pose proof (tsz_pos t). lia. }
+  assert (IHargs : forall args, list_sum (map tsz args) <= m -> forallb zsafe args = true ->
+                               map (d_term c) args = map (old_d_term c) args).
+  { intros args Hs Hzs. apply map_ext_in. intros a Hin. rewrite forallb_forall in Hzs.
+    apply IH; [|now apply Hzs]. pose proof (in_list_sum tsz a args Hin). lia. }
+  assert (IHcls : forall cls, list_sum (map csz cls) <= m -> forallb zsafe_clause cls = true ->
+                              map (d_clause c) cls = map (old_d_clause c) cls).
+  { intros cls Hs Hzs. apply map_ext_in. intros [p x ns g body] Hin. rewrite forallb_forall in Hzs.
+    specialize (Hzs _ Hin). cbn [zsafe_clause] in Hzs.
+    pose proof (in_list_sum csz _ cls Hin) as Hc. rewrite csz_clause in Hc.
+    cbn [d_clause old_d_clause]. rewrite IH by (auto; lia). reflexivity. }
+  destruct t as [v ty chi | z | a o b | s a b th el ty | nl a next ty | v vty bound body ty | f args ret
+                 | x args ty | scrut x targs args ty | scrut targs cls ty | cls ty | l u ty | l u ty | a ty | u];
+    cbn [zsafe] in Hz; try reflexivity.
+  - apply andb_prop in Hz. destruct Hz as [Ha Hb]. rewrite tsz_op in Hm. cbn [d_term old_d_term].
+    rewrite (IH a), (IH b) by (auto; lia). reflexivity.
+  - rewrite !andb_true_iff in Hz. destruct Hz as ((((Hza & Hea) & Hzb) & Hzth) & Hzel).
+    apply negb_true_iff in Hea. rewrite tsz_if in Hm. cbn [d_term old_d_term]. rewrite Hea.
+    rewrite (IH a), (IH th), (IH el) by (auto; lia).
+    destruct b as [b|]; [|reflexivity].
+    apply andb_prop in Hzb. destruct Hzb as [Hzb Hsb]. apply negb_true_iff in Hsb. rewrite Hsb.
+    rewrite (IH b) by (auto; lia). reflexivity.
+  - apply andb_prop in Hz. destruct Hz as [Ha Hb]. rewrite tsz_print in Hm. cbn [d_term old_d_term].
+    rewrite (IH a), (IH next) by (auto; lia). reflexivity.
+  - apply andb_prop in Hz. destruct Hz as [Ha Hb]. rewrite tsz_let in Hm. cbn [d_term old_d_term].
+    rewrite (IH bound), (IH body) by (auto; lia). reflexivity.
+  - rewrite tsz_call in Hm. cbn [d_term old_d_term]. rewrite IHargs by (auto; lia). reflexivity.
+  - rewrite tsz_ctor in Hm. cbn [d_term old_d_term]. rewrite IHargs by (auto; lia). reflexivity.
+  - apply andb_prop in Hz. destruct Hz as [Ha Hb]. rewrite tsz_dtor in Hm. cbn [d_term old_d_term].
+    rewrite (IH scrut), IHargs by (auto; lia). reflexivity.
+  - apply andb_prop in Hz. destruct Hz as [Ha Hb]. rewrite tsz_case in Hm. cbn [d_term old_d_term].
+    rewrite (IH scrut), IHcls by (auto; lia). reflexivity.
+  - rewrite tsz_new in Hm. cbn [d_term old_d_term]. rewrite IHcls by (auto; lia). reflexivity.
+  - rewrite tsz_label in Hm. cbn [d_term old_d_term]. rewrite IH by (auto; lia). reflexivity.
+  - rewrite tsz_goto in Hm. cbn [d_term old_d_term]. rewrite IH by (auto; lia). reflexivity.
+  - rewrite tsz_exit in Hm. cbn [d_term old_d_term]. rewrite IH by (auto; lia). reflexivity.
+  - rewrite tsz_paren in Hm. cbn [d_term old_d_term]. rewrite IH by (auto; lia). reflexivity.
+Qed.
+Lemma repair_conservative c p : zsafe_prog p = true -> d_prog c p = old_d_prog c p.
+Proof.
+  intros Hz. destruct p as [ds]. unfold zsafe_prog, d_prog, old_d_prog in *. cbn [fpdecls] in *.
+  rewrite forallb_forall in Hz. f_equal. apply map_ext_in. intros d Hd. specialize (Hz d Hd).
+  destruct d as [d|d|d]; try reflexivity. cbn [zsafe_decl] in Hz. cbn [d_decl old_d_decl]. unfold d_def, old_d_def.
+  now rewrite (same_doc_t c (tsz (fdbody d))).
+Qed.
+(* so what was proved of the old printer under the guard still stands *)
+Lemma old_roundtrip_guarded c p :
+  wf_prog p = true -> zsafe_prog p = true -> parse (tokens (old_d_prog c p)) = Some p.
+Proof. intros Hwf Hz. rewrite <- repair_conservative by assumption. now apply roundtrip. Qed.
+(* the class is not empty and not everything: a program outside it, with every kind of comparison *)
+Example zsafe_example :
+  exists p, parse_text "def main(x: i64): i64 { if x == 0 { if 0 < x { 1 } else { x - 0 } } else { if x <= 10 { -0 } else { 0 } } }" = Some p /\
+            wf_prog p = true /\ zsafe_prog p = true.
+Proof. eexists. split; [vm_compute; reflexivity|]. split; vm_compute; reflexivity. Qed.
